@@ -717,6 +717,13 @@ fn api_section(cx: &mut Cx, dirs: &DirectiveList)
 		"sel:5;wat:7:00",
 		"sel:5;wr:0000;wat:4:00",
 		"sel:5;wr:0000;wat:8:00",
+		// the cursor of the region being written stands on an OCCUPIED address (gap filled exactly; saturated top): selecting it is refused
+		"sel:16;wr:01020304;sel:8;wr:0102030405060708;sel:16",
+		"sel:16;wr:01020304;sel:8;wr:0102030405060708;sel:16;wr:aa;cl",
+		"sel:16;wr:01;cl;sel:12;wr:01020304;sel:16;sel:12;sel:17",
+		"sel:4294967294;wr:0102;sel:4294967295",
+		"sel:4294967295;wr:01;sel:4294967295;wr:02;cl",
+		"sel:4294967280;wr:000102030405060708090a0b0c0d0e0f;sel:4294967295;sel:4294967280",
 	];
 	for f in fixed
 	{
@@ -806,6 +813,10 @@ random: 40-statement programs at both ends of the address space and elsewhere. n
 		"plc:01",
 		"sel:257;al:4;defl:0102;app:aa;al:2;defg:77;sel:300;defg:aabb;sel:262;app:6162",
 		"sel:4294967292;defg:0102;defl:aabb;sel:4294967290;app:0102;app:03",
+		"sel:16;plc:01020304;sel:8;app:0102030405060708;sel:16",
+		"sel:16;plc:01020304;sel:8;defl:01020304;plc:05060708;sel:16;sel:32;plc:01",
+		"sel:4294967294;plc:0102;sel:4294967295",
+		"sel:4294967292;defg:01020304;sel:4294967295;plc:01",
 	];
 	for f in fixed
 	{
